@@ -1,24 +1,24 @@
 SPECIFICATION Spec
 CONSTANTS
-  Nodes = {1, 2, 3}
-  Epoch = 1
-  JoinSet = {1, 2, 3}
-  RemainSet = {}
-  LeaveSet = {}
+  Nodes = {1, 2, 3, 4}
+  Epoch = 2
+  JoinSet = {4}
+  RemainSet = {1, 2}
+  LeaveSet = {3}
   Leader = 1
   Thr = 2
   Period = 3
   Genesis = 100
   TMin = 110
-  TMax = 112
+  TMax = 110
   LateSet = {}
   RankChoices <- RotRank
   PermuteLists = FALSE
   AtomicGossip = FALSE
-  AtomicExec = FALSE
+  AtomicExec = TRUE
   MaxDrop = 0
   DropKinds = {"D", "R", "J"}
-  Offline = {}
+  Offline = {3}
 INVARIANTS TypeOK Inv_SameTerms Inv_OrderIndependent Inv_OwnIndex Inv_SameQual Inv_NoLoss Inv_EchoHeals Inv_SameGroupButTransition Inv_SameGroup
 VIEW View
 CHECK_DEADLOCK FALSE
